@@ -166,7 +166,7 @@ CLAIMS = {
           "no_refill_when_saturated, drain_by_previous_qps, refill_when_cold_or_low, idle_cools, allowed_full_below_warning, warmup_step_decision) and exact-arithmetic theorems about the formulas "
           "the f64 code evaluates (allowedQ_bounds: allowance in [q/c, q]; allowedQ_cold / allowedQ_warm; allowedQ_antitone; max_token_le_two_periods: 2p idle seconds refill the whole bucket), "
           "and the closed loop in an idealised form (closed_loop_ideal_reaches_warning_partial, closed_loop_ideal_within_two_periods_partial: in exact arithmetic, with the previous second's "
-          "admissions equal to the allowance, saturating demand drains the bucket to the warning line - from where the allowance is q - within 2p seconds, for every q > 0, c > 1, p >= 1). "
+          "admissions equal to the allowance, saturating demand drains the bucket to the warning line - from where the allowance is q - within 2p seconds, for every q > 0, c > 1, p >= 1; closed_loop_ideal_allowance_monotone_partial: and the allowance never decreases on the way). "
           "NOT proved: that the f64 evaluation stays within rounding of the exact formula, and the closed-loop trajectory of the code itself (floors, rounding, measured rate). These are decided on every run by validation: the soft-float model "
           "reproduces every decision of flow/traffic_shaping/warmup.rs bit-exactly over saturating / at-allowance / below-q/c / on-off demand profiles (single-token requests on 1..20 ms grids), and the "
           "Spec oracle on the implementation's traces checks: never more than q per statistic interval, rejections only above the cold rate q/c, cold start at about q/c, per-second admissions "
